@@ -1137,8 +1137,8 @@ pub static PROPS: &[PropSpec] = &[
         variants: single_variant,
         schedules_quick: 24,
         schedules_thorough: 64,
-        cases_quick: 12_000,
-        cases_thorough: 240_000,
+        cases_quick: 180_000,
+        cases_thorough: 2_160_000,
         rule: "a case is either a history of <= 14 operations on the real mailbox queue (capacity 1-8, 1-3 producer threads pushing unique values / closing, one consumer popping, holding and releasing borrows / closing) checked for linearizability against a sequential bounded FIFO, or a scenario on the real asynchronous channel (capacity 1-3, 1-3 producers awaiting send, a receiver awaiting recv, close by receiver or by a sender at an arbitrary point); distinct = distinct (decision sequence, history); non-trivial = a push found the queue full and a pop succeeded (queue), a sender or the receiver had to wait (channel)",
     },
     PropSpec {
@@ -1149,8 +1149,8 @@ pub static PROPS: &[PropSpec] = &[
         variants: single_variant,
         schedules_quick: 24,
         schedules_thorough: 64,
-        cases_quick: 12_000,
-        cases_thorough: 240_000,
+        cases_quick: 240_000,
+        cases_thorough: 2_880_000,
         rule: "a case is a script of 4-24 handle operations (run / drop runnable, wake by value / by reference, clone / drop waker, cancel / drop token, poll / drop promise) distributed over 2-3 threads on one task of the real task state machine (spawn or spawn_and_forget; future ready at poll 1-4, optionally waking itself or panicking in poll); distinct = distinct (decision sequence, history); non-trivial = at least two polls and a wake-up or cancellation",
     },
     PropSpec {
@@ -1161,8 +1161,8 @@ pub static PROPS: &[PropSpec] = &[
         variants: single_variant,
         schedules_quick: 24,
         schedules_thorough: 64,
-        cases_quick: 12_000,
-        cases_thorough: 240_000,
+        cases_quick: 180_000,
+        cases_thorough: 2_160_000,
         rule: "a case is one writer storing 1-8(10) strictly increasing times (seconds and nanoseconds both change) into the real time cell and publishing the index with release/acquire, and 1-3 reader threads doing 1-8 read()/try_read() calls each; distinct = distinct (decision sequence, history); non-trivial = a read raced with a write (seqlock retry, failed try_read, or a value newer than the published one)",
     },
     PropSpec {
@@ -1173,8 +1173,8 @@ pub static PROPS: &[PropSpec] = &[
         variants: single_variant,
         schedules_quick: 10,
         schedules_thorough: 32,
-        cases_quick: 12_000,
-        cases_thorough: 240_000,
+        cases_quick: 18_000,
+        cases_thorough: 216_000,
         rule: "a case is a bench with requestors of 0-6 repliers (plain / map / filter_map connections, capacity 1-2 mailboxes, repliers that query in turn), leaked wakers woken by other models (spurious polls of the query future), query sources, direct process_query, and output / requestor port clones that gain a connection at run time (connect on one clone, causally later send on another), on ST or MT; distinct = distinct (decision sequence, history); non-trivial = a query with at least two replies completed or a run-time connection was added",
     },
     PropSpec {
@@ -1185,8 +1185,8 @@ pub static PROPS: &[PropSpec] = &[
         variants: single_variant,
         schedules_quick: 6,
         schedules_thorough: 16,
-        cases_quick: 20_000,
-        cases_thorough: 400_000,
+        cases_quick: 160_000,
+        cases_thorough: 1_920_000,
         rule: "a case is a bench whose models write to 1-2 sinks (EventBuffer capacity 1-8 or EventSlot, open or closed initially) through plain / map / filter_map connections, with 0 to several times the capacity written per command, and a driver that reads (0..capacity+2 events), closes and reopens the sinks between commands, on ST (exact reference) or MT (order-insensitive reference); distinct = distinct (decision sequence, history); non-trivial = a sink overflowed between two reads, or was closed/reopened while being written",
     },
     PropSpec {
@@ -1197,8 +1197,8 @@ pub static PROPS: &[PropSpec] = &[
         variants: variants_c19,
         schedules_quick: 2,
         schedules_thorough: 5,
-        cases_quick: 400,
-        cases_thorough: 8_000,
+        cases_quick: 1_600,
+        cases_thorough: 24_000,
         rule: "a case is a base bench (hierarchy, small mailboxes, leaked wakers, optional wake-on-drop handler futures, either drop order of simulation and external handles) x every fault variant of C11 (none, panic, dropped/orphan mailbox, query loop, saturating loop, time-out, clock lag) x every drop index 0..=n of the script; distinct = distinct (decision sequence, history); non-trivial = dropped after a fatal error, with an unfinished handler, or with wake-ups issued from destructors during the drop",
     },
     PropSpec {
@@ -1209,8 +1209,8 @@ pub static PROPS: &[PropSpec] = &[
         variants: variants_c11,
         schedules_quick: 3,
         schedules_thorough: 8,
-        cases_quick: 3_000,
-        cases_thorough: 60_000,
+        cases_quick: 12_000,
+        cases_thorough: 144_000,
         rule: "a case is a fault-free base (hierarchy, event/query traffic, driver and model scheduling, every kind of run command) plus one variant per (fault kind, injection point): model panic at init/invocation 0-2 of 2-3 models, 3 dropped mailboxes, 2 orphan mailboxes, a query loop, a saturating loop, step time-out at blocking wait 0-4(7), clock lag above tolerance at synchronisation 1-4(7); distinct = distinct (decision sequence, history); non-trivial = a fatal error was reported and at least one further run attempt followed",
     },
     PropSpec {
@@ -1221,8 +1221,8 @@ pub static PROPS: &[PropSpec] = &[
         variants: single_variant,
         schedules_quick: 6,
         schedules_thorough: 16,
-        cases_quick: 12_000,
-        cases_thorough: 240_000,
+        cases_quick: 60_000,
+        cases_thorough: 720_000,
         rule: "a case is a seeded agenda (driver and model scheduling requests of all kinds, ns-to-hour scales, equal deadlines, cancels) driven by step/step_until/process_* on ST or MT; distinct = distinct (decision sequence, history); non-trivial = at least two scheduled actions fired",
     },
     PropSpec {
@@ -1233,8 +1233,8 @@ pub static PROPS: &[PropSpec] = &[
         variants: single_variant,
         schedules_quick: 8,
         schedules_thorough: 24,
-        cases_quick: 10_000,
-        cases_thorough: 200_000,
+        cases_quick: 40_000,
+        cases_thorough: 480_000,
         rule: "a case is a seeded set of same-deadline bursts from the global scheduler and from model contexts (one-shot, keyed, periodic, EventSource actions) on ST or MT; distinct = distinct (decision sequence, history); non-trivial = at least two actions of one origin and time were chained (SeqFuture path)",
     },
     PropSpec {
@@ -1245,8 +1245,8 @@ pub static PROPS: &[PropSpec] = &[
         variants: single_variant,
         schedules_quick: 8,
         schedules_thorough: 24,
-        cases_quick: 10_000,
-        cases_thorough: 200_000,
+        cases_quick: 50_000,
+        cases_thorough: 600_000,
         rule: "a case mixes valid and invalid scheduling requests (past/now deadlines, zero periods, Scheduler::schedule with EventSource actions) from the driver, models and 0-2 concurrent scheduler threads; distinct = distinct (decision sequence, history); non-trivial = at least one request rejected and one accepted",
     },
     PropSpec {
@@ -1257,8 +1257,8 @@ pub static PROPS: &[PropSpec] = &[
         variants: single_variant,
         schedules_quick: 6,
         schedules_thorough: 16,
-        cases_quick: 12_000,
-        cases_thorough: 240_000,
+        cases_quick: 72_000,
+        cases_thorough: 864_000,
         rule: "a case schedules keyed one-shot/periodic events and cancels them (key, clone, auto-key drop) from the driver and from models at arbitrary points; distinct = distinct (decision sequence, history); non-trivial = at least one cancellation and one firing",
     },
     PropSpec {
@@ -1269,8 +1269,8 @@ pub static PROPS: &[PropSpec] = &[
         variants: variants_c10,
         schedules_quick: 3,
         schedules_thorough: 6,
-        cases_quick: 8_000,
-        cases_thorough: 160_000,
+        cases_quick: 40_000,
+        cases_thorough: 480_000,
         rule: "a case is 1-4 periodic series (period 1 ns..hours, commensurable periods) with an optional cancellation, executed under 4-6 different partitions of the horizon into step/step_until calls (and on ST/MT); distinct = distinct (decision sequence, history); non-trivial = at least three periodic occurrences fired",
     },
     PropSpec {
@@ -1281,8 +1281,8 @@ pub static PROPS: &[PropSpec] = &[
         variants: single_variant,
         schedules_quick: 5,
         schedules_thorough: 12,
-        cases_quick: 12_000,
-        cases_thorough: 240_000,
+        cases_quick: 120_000,
+        cases_thorough: 1_440_000,
         rule: "a case is an agenda stepped under a scripted clock (Synchronized / OutOfSync(lag) per call) with tolerance unset / 0 / between lags / huge; every (clock answer index x script) combination is generated from the seed; distinct = distinct (decision sequence, history); non-trivial = at least one OutOfSync answer and three synchronize calls",
     },
     PropSpec {
@@ -1293,8 +1293,8 @@ pub static PROPS: &[PropSpec] = &[
         variants: single_variant,
         schedules_quick: 12,
         schedules_thorough: 40,
-        cases_quick: 6_000,
-        cases_thorough: 120_000,
+        cases_quick: 60_000,
+        cases_thorough: 720_000,
         rule: "a case is a seeded acyclic bench (3-6 models, capacities 1-16, event/query fan-out, map/filter edges) run on the MT executor; distinct = distinct (scheduler decision sequence, observable history); non-trivial = at least one sender found a mailbox full and >= 4 handler invocations",
     },
     PropSpec {
@@ -1305,8 +1305,8 @@ pub static PROPS: &[PropSpec] = &[
         variants: single_variant,
         schedules_quick: 10,
         schedules_thorough: 32,
-        cases_quick: 7_000,
-        cases_thorough: 140_000,
+        cases_quick: 56_000,
+        cases_thorough: 672_000,
         rule: "a case is a seeded acyclic bench with plain/map/filter_map edges to models and sinks on ST or MT; distinct = distinct (decision sequence, history); non-trivial = a sender had to wait for mailbox space (push found Full) and >= 3 handler invocations",
     },
     PropSpec {
@@ -1317,8 +1317,8 @@ pub static PROPS: &[PropSpec] = &[
         variants: variants_c04,
         schedules_quick: 6,
         schedules_thorough: 16,
-        cases_quick: 2_500,
-        cases_thorough: 50_000,
+        cases_quick: 25_000,
+        cases_thorough: 300_000,
         rule: "a case is a content-only bench executed on ST and on MT(2,3,4[,8,16]) under several schedules each and compared per command; distinct = distinct (decision sequence, history); non-trivial = MT execution in which workers parked more than twice (the idle protocol ran)",
     },
     PropSpec {
@@ -1329,8 +1329,8 @@ pub static PROPS: &[PropSpec] = &[
         variants: single_variant,
         schedules_quick: 12,
         schedules_thorough: 40,
-        cases_quick: 6_000,
-        cases_thorough: 120_000,
+        cases_quick: 36_000,
+        cases_thorough: 432_000,
         rule: "a case is an MT bench whose handlers leak wakers of their task and wake/drop other models' leaked wakers (by value, by reference); distinct = distinct (decision sequence, history); non-trivial = a task was re-polled after a wake during poll or a task was stolen",
     },
     PropSpec {
@@ -1341,8 +1341,8 @@ pub static PROPS: &[PropSpec] = &[
         variants: single_variant,
         schedules_quick: 10,
         schedules_thorough: 32,
-        cases_quick: 7_000,
-        cases_thorough: 140_000,
+        cases_quick: 100_000,
+        cases_thorough: 1_200_000,
         rule: "a case is a bench with query loops, saturating event loops, orphan mailboxes and sub-models, or a drainable bench (45%); distinct = distinct (decision sequence, history); non-trivial = the run ended in Deadlock or MessageLoss",
     },
     PropSpec {
@@ -1353,8 +1353,8 @@ pub static PROPS: &[PropSpec] = &[
         variants: single_variant,
         schedules_quick: 10,
         schedules_thorough: 32,
-        cases_quick: 7_000,
-        cases_thorough: 140_000,
+        cases_quick: 56_000,
+        cases_thorough: 672_000,
         rule: "a case is a model hierarchy (depth 0-3) whose init programs send events and queries; distinct = distinct (decision sequence, history); non-trivial = init-time traffic and at least one sub-model",
     },
 ];
